@@ -140,8 +140,8 @@ static void c13_iteration(long i) {
 }
 
 /* ------------------------------------------------------------------ C06 */
-enum { SC_LOAD, SC_COPY, SC_SER, SC_BUILD, SC_PUSH, SC_MAPADD, SC_CHUNK, SC_NEWTAG, SC_SET, NSC };
-static const char* sc_name[] = {"load", "copy", "serialize_alloc", "build", "push", "map_add", "add_chunk", "build_tag", "array_set"};
+enum { SC_LOAD, SC_COPY, SC_SER, SC_BUILD, SC_PUSH, SC_MAPADD, SC_CHUNK, SC_NEWTAG, SC_SET, SC_SERNULL, SC_MOVEPUSH, SC_TAGSET, SC_REPLACE, NSC };
+static const char* sc_name[] = {"load", "copy", "serialize_alloc", "build", "push", "map_add", "add_chunk", "build_tag", "array_set", "serialize_alloc", "push", "push", "push"};
 
 struct scen {
   int kind, variant;
@@ -156,13 +156,13 @@ static void setup_args(struct scen* s) {
   arg0 = arg1 = arg2 = NULL;
   switch (s->kind) {
     case SC_LOAD: break;
-    case SC_COPY: case SC_SER: {
+    case SC_COPY: case SC_SER: case SC_SERNULL: {
       if (s->inlen) { struct cbor_load_result r; arg0 = cbor_load(s->in, s->inlen, &r); }
       else arg0 = vg_build(1 + s->variant % 4);
       break;
     }
     case SC_BUILD: break;
-    case SC_PUSH: case SC_SET: { /* indefinite array holding `variant` members: the next push grows at 0,1,2,4,8 */
+    case SC_PUSH: case SC_SET: case SC_MOVEPUSH: { /* indefinite array holding `variant` members: the next push grows at 0,1,2,4,8 */
       arg0 = cbor_new_indefinite_array();
       for (int i = 0; i < s->variant; i++) { cbor_item_t* x = cbor_build_uint8((uint8_t)i); (void)cbor_array_push(arg0, x); cbor_decref(&x); }
       arg1 = cbor_build_string("pushee");
@@ -248,6 +248,19 @@ static const char* run_op(struct scen* s, cbor_item_t** result) {
       return it ? "ok" : "null";
     }
     case SC_PUSH: return cbor_array_push(arg0, arg1) ? "ok" : "false";
+    case SC_MOVEPUSH: { /* the documented idiom cbor_array_push(a, cbor_move(x)): the pushee arrives with the caller's reference given away */
+      bool ok = cbor_array_push(arg0, cbor_move(arg1));
+      if (ok) cbor_incref(arg1); /* (so that the common clean-up can drop one reference) */
+      else arg1->refcount++;    /* the item must still exist, exactly as handed in: take the reference back */
+      return ok ? "ok" : "false";
+    }
+    case SC_SERNULL: { /* the optional size output parameter omitted */
+      unsigned char* b = (unsigned char*)1;
+      size_t w = cbor_serialize_alloc(arg0, &b, NULL);
+      if (w == 0) return b == NULL ? "zero" : "zero-but-outputs-set";
+      va_free(b);
+      return "ok";
+    }
     case SC_SET: return cbor_array_set(arg0, cbor_array_size(arg0), arg1) ? "ok" : "false";
     case SC_MAPADD: return cbor_map_add(arg0, (struct cbor_pair){.key = arg1, .value = arg2}) ? "ok" : "false";
     case SC_CHUNK: return ((s->variant & 16) ? cbor_bytestring_add_chunk(arg0, arg1) : cbor_string_add_chunk(arg0, arg1)) ? "ok" : "false";
@@ -273,7 +286,7 @@ static void scenario(struct scen* s) {
   /* fault-free run: count the requests */
   va_fault_mode = VA_NONE;
   setup_args(s);
-  if ((s->kind == SC_COPY || s->kind == SC_SER || s->kind == SC_NEWTAG) && !arg0) { free_args(); return; } /* input not acceptable */
+  if ((s->kind == SC_COPY || s->kind == SC_SER || s->kind == SC_SERNULL || s->kind == SC_NEWTAG) && !arg0) { free_args(); return; } /* input not acceptable */
   long r0 = va.requests;
   cbor_item_t* res;
   const char* ret0 = run_op(s, &res);
@@ -340,6 +353,7 @@ int main(int argc, char** argv) {
     for (int i = 0; i < 8; i++) {
       s = (struct scen){.kind = SC_PUSH, .variant = sizes[i], .seed = 1}; scenario(&s);
       s = (struct scen){.kind = SC_SET, .variant = sizes[i], .seed = 1}; scenario(&s);
+      s = (struct scen){.kind = SC_MOVEPUSH, .variant = sizes[i], .seed = 1}; scenario(&s);
       s = (struct scen){.kind = SC_MAPADD, .variant = sizes[i], .seed = 1}; scenario(&s);
       s = (struct scen){.kind = SC_CHUNK, .variant = sizes[i] & 15, .seed = 1}; scenario(&s);
       s = (struct scen){.kind = SC_CHUNK, .variant = 16 | (sizes[i] & 15), .seed = 1}; scenario(&s);
@@ -353,6 +367,7 @@ int main(int argc, char** argv) {
       size_t n = 0;
       for (const char* p = corpus[c]; p[0] && p[1]; p += 2) { unsigned v; sscanf(p, "%2x", &v); s.in[n++] = (unsigned char)v; }
       for (int kind = SC_LOAD; kind <= SC_SER; kind++) { s.kind = kind; s.variant = 0; s.seed = 7; s.inlen = n; scenario(&s); }
+      s.kind = SC_SERNULL; scenario(&s);
     }
     for (long i = 0; i < N; i++) {
       vh_rng_state = 0x1234567 + (uint64_t)i * 0x9E3779B97F4A7C15ull;
